@@ -192,7 +192,7 @@ CHECKS = {
               'the spec\'s selection; random longer columns with 1..3 pairs are observed through SUMIFS over a power-of-two target column and judged by '
               'TLC (Trace_C12).'),
         design_ref='§7 C12',
-        note=NOTE_COMMON + 'Open findings C12-F1 (operator prefixes only parsed in "<op><number>" literals), C12-F2 (ordering criterion vs text cell raises), C12-F3 (blank counted as 0), C12-F4 (truth values compared as 1 / 0) with spec-computed guards; inside a guard the deviant outcome is not modelled (precision any). Numeric-looking and calendar-word texts are kept out (dateutil clock hazard).',
+        note=NOTE_COMMON + 'Open findings C12-F1 (operator prefixes only parsed in "<op><number>" literals), C12-F2 (ordering criterion vs text cell raises), C12-F3 (blank counted as 0), C12-F4 (truth values compared as 1 / 0) with spec-computed guards; in the enumerated part the deviant outcome is modelled exactly (XlCriteria!ImplAccepts): a case inside a guard whose observation is neither the ideal nor the modelled deviation is a VIOLATION; the random trace part attributes by guard only. Numeric-looking and calendar-word texts are kept out (dateutil clock hazard).',
         technique='TLA+ criteria oracle with TLC-checked laws, TLC-enumerated columns x criteria x spellings replayed, trace validation'),
     'C07': dict(
         category='model_checking',
